@@ -46,6 +46,7 @@ def wellformed(data):
         p.Parse(data, True)
         return None
     except expat.ExpatError as e:
+        e.byte_index = p.ErrorByteIndex          # expat's column counts characters; the byte position is what the classifier needs
         return e
 
 
@@ -70,8 +71,10 @@ def cause_of(data, err, off, src, kind):
 
 def context_kind(data, err, sl):
     """slot kind whose sentinels surround the error position (stable key part)"""
-    lines = data.split(b'\n')
-    off = sum(len(l) + 1 for l in lines[:err.lineno - 1]) + err.offset
+    off = getattr(err, 'byte_index', -1)
+    if off < 0:
+        lines = data.split(b'\n')
+        off = sum(len(l) + 1 for l in lines[:err.lineno - 1]) + err.offset
     best = None
     for s in sl:
         a = data.find(s['a'].encode())
